@@ -56,7 +56,7 @@ def qid_of(o):
 
 
 def exec_impl(lines, tag):
-    d = os.path.join(core.BUILD, "scratch")
+    d = core.SCRATCH
     os.makedirs(d, exist_ok=True)
     p = os.path.join(d, f"{tag}.ops")
     with open(p, "w") as f:
@@ -114,7 +114,7 @@ def run(r: core.Run):
             pr["ok"] = False
             pr["failed"].append(("leanchecker", out[-500:]))
     r.cov["rule"] = RULE
-    d = os.path.join(core.BUILD, "scratch")
+    d = core.SCRATCH
     os.makedirs(d, exist_ok=True)
     base = os.path.join(d, "C14-meta")
 
